@@ -31,6 +31,16 @@ CONTRACTS = [
         notes="abstract hook implemented by subclasses: an arbitrary answer (or any exception), a function of (provider, schema, table)",
     ),
     Contract(
+        P + "get_table_columns",
+        props=["C12", "C13", "C04"],
+        assume_only=True,
+        params={"kwargs": "dict[str, Any]"},
+        returns="list[Column]",
+        raises={"*": {"when": None}},
+        modifies=[],
+        notes="used modularly by graph-level code: returns Column objects (possibly none) or raises; verified separately (C13/C04)",
+    ),
+    Contract(
         P + "register_session_metadata",
         props=["C12", "C04"],
         ensures={
